@@ -55,7 +55,10 @@ pub fn gen_sequence(g: &mut Gen, cfg: &PicCfg, max: usize) -> Vec<Pic> {
                 like = i.hdr.clone();
                 i
             }
-            1 => gen_inter_pic(g, cfg, &like, PicType::P, false),
+            // standard mode: a predicted picture may end early (fewer macroblocks than the format
+            // has); the decoder then resynchronises on the start code of the picture that follows,
+            // or meets the end of the data, and completes the picture from its reference either way
+            1 => gen_inter_pic(g, cfg, &like, PicType::P, mode == Mode::Standard),
             _ => gen_inter_pic(g, cfg, &like, PicType::D, false),
         };
         // predicted pictures must keep the size of their reference: stop changing sizes once a
